@@ -288,7 +288,7 @@ impl SendRateComp {
         self.send_rate = self.send_rate.min(self.max_send_rate);
 
         // Restart nofeedback timer
-        self.nofeedback_exp_ms = Some(now_ms + s_to_ms(rto_s));
+        self.nofeedback_exp_ms = Some(now_ms.saturating_add(s_to_ms(rto_s)));
         self.nofeedback_idle = true;
 
         #[cfg(uflow_verif)]
@@ -390,7 +390,7 @@ impl SendRateComp {
         // This may or may not be the intended behavior.
         let rto_s = self.update_rto(self.rtt_s.unwrap_or(0.0), self.send_rate);
 
-        self.nofeedback_exp_ms = Some(now_ms + s_to_ms(rto_s));
+        self.nofeedback_exp_ms = Some(now_ms.saturating_add(s_to_ms(rto_s)));
         self.nofeedback_idle = true;
 
         #[cfg(uflow_verif)]
